@@ -96,11 +96,19 @@ def translate():
     return ok, " | ".join(msgs)
 
 
+TIE_DOWN = set()      # properties whose source tie (Ties/Cxx.lean) did not rebuild in this run
+
+
+def tie_module(prop):
+    return "Cpl.Ties." + prop if os.path.exists(os.path.join(LEAN, "Cpl", "Ties", prop + ".lean")) else None
+
+
 def prop_modules(prop):
-    """Lean modules whose theorems are the property's obligations: Properties/Cxx (+ Ties/Cxx: translated source = model)."""
+    """Lean modules whose theorems are audited: Properties/Cxx (the property's obligations, about the hand model)
+    + Ties/Cxx (translated source = model) when it rebuilt in this run."""
     mods = ["Cpl.Properties." + prop]
-    if os.path.exists(os.path.join(LEAN, "Cpl", "Ties", prop + ".lean")):
-        mods.append("Cpl.Ties." + prop)
+    if tie_module(prop) and prop not in TIE_DOWN:
+        mods.append(tie_module(prop))
     return mods
 
 
@@ -372,6 +380,20 @@ def run_property(prop, tier, seed, replay=None):
         broken.append("translator: " + tr_msg[-500:])
 
     # 2. proofs
+    #    (a) the property's theorems (about the hand model) and the driver; (b) the source tie, where one exists:
+    #    the functions translated from /repo's source by py2lean equal the hand model for all inputs. The model is
+    #    tied to the code twice for such properties (translation + correspondence); a tie proof that no longer
+    #    goes through after a rewrite of the source leaves the correspondence tie, which every property has.
+    TIE_DOWN.discard(prop)
+    tie_broken = None
+    if tie_module(prop):
+        t_ok, t_log = lake_build([tie_module(prop)])
+        if not t_ok:
+            TIE_DOWN.add(prop)
+            errs = [l for l in t_log.splitlines() if l.startswith("error")]
+            tie_broken = "lake build %s failed (translator: %s): %s" % (
+                tie_module(prop), "; ".join(x for x in tr_msg.split("; ") if "untranslated" in x)[:400] or "all functions translated",
+                " / ".join(errs[:4])[:600])
     b_ok, b_log = lake_build(prop_modules(prop) + ["driver"])
     aud = dict(obligations=0, discharged=0, axioms=[], theorems=[], failed=[], log="")
     if not b_ok:
@@ -501,7 +523,7 @@ def run_property(prop, tier, seed, replay=None):
                                        driver_line=driver_line(mod, small), seed=seed, tier=tier))
         violations.append(("failing-input", path, ""))
 
-    if not oracle_fail and (corr_fail or broken):
+    if not oracle_fail and (corr_fail or broken or tie_broken):
         # proof obligation or correspondence broke, and no sampled case violates the property directly:
         # search harder for a concrete failing input before reporting without one
         found = None
@@ -527,6 +549,12 @@ def run_property(prop, tier, seed, replay=None):
                                            case=small, original_case=found[0], impl_answer=a2,
                                            broken=broken, driver_line=driver_line(mod, small), seed=seed, tier=tier))
             violations.append(("failing-input", path, ""))
+        elif not corr_fail and not broken:
+            # only the source tie is down: the property's theorems hold of the hand model, the model agrees with
+            # the implementation on every case of this run and of the escalated search -> not a violation
+            print("NOTE: property=%s source tie not re-established on the current source (%s); hand model still tied "
+                  "by correspondence: %d cases + %d search cases agree" % (prop, tie_broken[:200], n_traces,
+                                                                           ctx.extra_coverage.get("search_cases", 0)))
         else:
             payload = dict(property=prop, kind="no-failing-input-found", broken_obligations=broken,
                            seed=seed, tier=tier,
@@ -575,6 +603,9 @@ def run_property(prop, tier, seed, replay=None):
         exhaustive=bool(getattr(mod, "EXHAUSTIVE", False)),
         broken_obligations=broken,
         translator=tr_msg[-300:],
+        source_tie=("none: hand model tied by correspondence only" if not tie_module(prop) else
+                    "NOT re-established in this run: " + tie_broken if tie_broken else
+                    "re-established: %s rebuilt against the functions translated from the current source" % tie_module(prop)),
     )
     coverage.update(ctx.extra_coverage)
     if hasattr(mod, "coverage_extra"):
